@@ -46,7 +46,10 @@ pub fn first_diff(a: &str, b: &str) -> String {
 
 /// The errors and binding rules C10 names, as fixed sessions: (lines typed, then expected transcript
 /// of the last one; `*` in the expectation stands for any text without a line break).
-const C10_CORPUS: [(&[&str], &str); 14] = [
+const C10_CORPUS: [(&[&str], &str); 17] = [
+    (&["10 DEF FNA(X)=X*2", "20 PRINT FNA(3)", "RUN", "DELETE 10", "PRINT FNA(3)"], "?UNDEFINED USER FUNCTION\nREADY.\n<STOPPED>"),
+    (&["10 DEF FNA(X)=X*2", "20 PRINT FNA(3)", "RUN", "RENUM", "PRINT FNA(3)"], "?UNDEFINED USER FUNCTION\nREADY.\n<STOPPED>"),
+    (&["10 N=4", "20 DEF FNM$(S$,N)=MID$(S$,N,1)", "30 PRINT FNM$(\"HELLO\",2)", "RUN"], "E\nREADY.\n<STOPPED>"),
     (&["DEF FNA(X)=X"], "?ILLEGAL DIRECT\nREADY.\n<STOPPED>"),
     (&["10 PRINT FNA(1)", "RUN"], "?UNDEFINED USER FUNCTION IN 10\nREADY.\n<STOPPED>"),
     (&["10 DEF FNA(X)=X", "20 PRINT FNA(1,2)", "RUN"], "?ILLEGAL FUNCTION CALL IN 20\nREADY.\n<STOPPED>"),
@@ -192,7 +195,24 @@ impl Prop for ModelProg {
             ctx.evals += 1;
             return;
         }
-        let r = run_fresh(&lines, &["RUN".to_string()], &p.replies, 5000, 100_000);
+        // C09: a DATA statement typed at the prompt is refused and must not add constants to the program's
+        let direct_data = self.id == "C09" && rng.chance(1, 4);
+        let mut r = if direct_data {
+            run_fresh(&lines, &["DATA 77,88".to_string(), "RUN".to_string()], &p.replies, 5000, 100_000)
+        } else {
+            run_fresh(&lines, &["RUN".to_string()], &p.replies, 5000, 100_000)
+        };
+        if direct_data {
+            ctx.count("runs_after_a_refused_direct_DATA");
+            let refused = "?ILLEGAL DIRECT\nREADY.\n<STOPPED>";
+            match r.transcript.strip_prefix(refused) {
+                Some(rest) => r.transcript = rest.to_string(),
+                None => {
+                    ctx.violation("direct-data", "direct-data-accepted", &format!("DATA 77,88 typed at the prompt gave {:?}", r.transcript), &text);
+                    return;
+                }
+            }
+        }
         if r.stop == Stop::Budget {
             ctx.violation("no-stop", "no-stop", "program the model finishes did not stop within 100,000 execute calls", &text);
             return;
